@@ -5,7 +5,7 @@ import random
 import numpy as np
 
 SPS_SET = [2, 3, 4, 5, 7, 8, 16, 32, 64]
-R_SET = [1e9, 2.5e9, 10e9, 25e9, 12.5e9, 1e6, 40e9, 100e6]
+R_SET = [1e9, 2.5e9, 10e9, 25e9, 12.5e9, 1e6, 40e9, 100e6, 10e9 / 3]      # the last one is not a whole number of Hz
 WL_SET = [1550e-9, 1310e-9, 1549.32e-9, 1600e-9, 850e-9]
 
 
@@ -23,15 +23,26 @@ def gen_gv_op(rng: random.Random, allow_N=True, max_total=4096):
         kw["R"] = R
     if "fs" in form.split(","):
         kw["fs"] = fs
+    if "fs" in kw and "sps" not in kw and rng.random() < 0.3:
+        # a sampling rate obtained from a sampling interval (fs = 1/dt): an ulp below the exact multiple of R
+        kw["fs"] = float(np.nextafter(fs, 0))
     if rng.random() < 0.4:
         kw["wavelength"] = rng.choice(WL_SET)
-    if rng.random() < 0.0 and not allow_N:
-        pass
     if allow_N and rng.random() < 0.5:
         kw["N"] = rng.choice([1, 2, 3, 8, 10, 17, 64])
         while kw["N"] * sps > max_total:
             kw["N"] = max(1, kw["N"] // 2)
     return {"op": "gv", "kw": kw}
+
+
+def gv_kw(sps, R, style):
+    """gv arguments for `sps` samples per slot at slot rate R: given directly, or as the pair (R, fs) with fs taken
+    from a sampling interval (an ulp below / at the exact product)."""
+    if style == "fsdt":
+        return {"R": R, "fs": float(np.nextafter(R * sps, 0))}
+    if style == "fs":
+        return {"R": R, "fs": R * sps}
+    return {"sps": sps, "R": R}
 
 
 def apply_gv(kw):
@@ -61,3 +72,35 @@ def close(a, b, rtol=1e-12, atol=0.0):
 
 def exc_name(e):
     return type(e).__name__
+
+
+def leak_sweep(reject, valid, upto, oracle, rec, every=1, what="call"):
+    """History fault 'leak ramp': rejected calls leave tic() entries on the library's timer stack (they raise between
+    tic() and toc()).  Pile them up one at a time through `reject()` (a call that raises its documented error) until the
+    stack holds `upto` entries and, at every `every`-th depth, make the valid call `valid()` (returns a digest): it
+    must keep working and keep giving the result it gave before the ramp."""
+    from sim import core, seams
+    from sim.core import Violation
+    try:
+        base = valid()
+        d0 = seams.timer_stack_depth()
+        k = 0
+        while seams.timer_stack_depth() < upto and k < 2 * upto + 50:
+            reject()
+            k += 1
+            if k % every == 0:
+                got = valid()
+                if got != base:
+                    raise Violation(oracle, f"{what} gives a different result after {seams.timer_stack_depth()} "
+                                            f"rejected calls left their tic() entries behind than at depth {d0}",
+                                    "leakramp/differs")
+    except Violation:
+        raise
+    except Exception as e:
+        if not core.from_library(e):
+            raise
+        raise Violation(oracle, f"after {seams.timer_stack_depth()} leaked tic() entries (rejected calls earlier in the "
+                                f"session) a valid {what} raised {type(e).__name__}: {e}", "leakramp/raise")
+    rec.fault("leak_ramp")
+    rec.probe("timer-stack depth swept", seams.timer_stack_depth() - d0)
+    return f"depth:{seams.timer_stack_depth()}"
